@@ -279,6 +279,54 @@ func IsKnown(signature string) (string, bool) {
 	return "", false
 }
 
+// NeedsRepro declares signature prefixes of rules whose only evidence is that something did not happen within a
+// wall-clock bound ("not delivered within 10 s").  Such a failure counts only if the same case fails again when it is
+// evaluated once more, straight away, in the same process (up to two more evaluations); otherwise it is recorded as
+// inconclusive (not_reproduced/<prefix>): a time budget that was hit once proves nothing about the code.
+func NeedsRepro(prefixes ...string) { reproPrefixes = append(reproPrefixes, prefixes...) }
+
+var (
+	reproPrefixes []string
+	inRepro       bool
+)
+
+type reproStop struct{}
+
+type reproTB struct{ failed bool }
+
+func (r *reproTB) Fatalf(format string, args ...any) { r.failed = true; panic(reproStop{}) }
+func (r *reproTB) Logf(format string, args ...any)   {}
+func (r *reproTB) Helper()                           {}
+
+// reproduced evaluates the case again (twice at most) and reports whether it failed again.
+func reproduced(kind string, cas any) (again, could bool) {
+	run, ok := replayFns[kind]
+	if !ok {
+		return false, false
+	}
+	raw, err := json.Marshal(cas)
+	if err != nil {
+		return false, false
+	}
+	inRepro = true
+	defer func() { inRepro = false }()
+	for i := 0; i < 2 && !again; i++ {
+		rt := &reproTB{}
+		func() {
+			defer func() {
+				if p := recover(); p != nil {
+					if _, ok := p.(reproStop); !ok {
+						panic(p)
+					}
+				}
+			}()
+			run(rt, raw)
+		}()
+		again = rt.failed
+	}
+	return again, true
+}
+
 // Fail reports an oracle failure.  If the signature matches a known finding it
 // is counted and the function returns false (the caller goes on); otherwise the
 // case is written to the replay directory and tb.Fatalf is called.
@@ -291,6 +339,16 @@ func Fail(tb TB, kind, signature string, cas any, format string, args ...any) bo
 				// a rule that bounds a latency by a few seconds, on a machine that itself overslept by that much
 				Inconclusive("late_machine/" + p)
 				return false
+			}
+		}
+	}
+	if !inRepro && !c.replaying {
+		for _, p := range reproPrefixes {
+			if strings.HasPrefix(signature, p) {
+				if again, could := reproduced(kind, cas); could && !again {
+					Inconclusive("not_reproduced/" + p)
+					return false
+				}
 			}
 		}
 	}
